@@ -284,3 +284,187 @@ if_step_proof!(c08_ev_if_2, ev_if_2);
 if_step_proof!(c08_se_if_0, se_if_0);
 if_step_proof!(c08_se_if_1, se_if_1);
 if_step_proof!(c08_se_if_2, se_if_2);
+
+// ------------------------------------------------------------------------------------------------
+// side-effect helper arms
+
+/// Prefix shapes (group 0): 0 `x`, 1 `f()`, 2 `(a)`; (group 1): 3 `P.name`, 4 `P[b]` where `P` is
+/// one of the group-0 shapes chosen by `inner`.
+fn simple_prefix(inner: u8, child: Child) -> (Prefix, bool) {
+    match inner {
+        0 => (Prefix::from_name("x"), false),
+        1 => (FunctionCall::from_name("f").into(), true),
+        _ => (ParentheseExpression::new(child_expression(0, child)).into(), child.effects),
+    }
+}
+
+fn any_prefix<S: Source>(s: &mut S, group: u8, pure: bool) -> (Prefix, bool) {
+    let inner = s.any_u8();
+    s.assume(inner < 3);
+    let child_a = any_child(s);
+    let child_b = any_child(s);
+    s.assume(realisable(child_a) && realisable(child_b));
+    let (base, base_effects) = simple_prefix(inner, child_a);
+    if group == 0 {
+        return (base, base_effects);
+    }
+    let indexed = s.any_bool();
+    if indexed {
+        (
+            IndexExpression::new(base, child_expression(1, child_b)).into(),
+            base_effects || child_b.effects || !pure,
+        )
+    } else {
+        (FieldExpression::new(base, "name").into(), base_effects || !pure)
+    }
+}
+
+/// H-SE-prefix / -field / -index / -type-inst: the private helper arms of `has_side_effects`.
+/// `arm`: 0 prefix_has_side_effects, 1 field_has_side_effects, 2 index_has_side_effects,
+/// 3 type_instantiation_has_side_effects.
+fn se_prefix<S: Source>(s: &mut S, group: u8, arm: u8) {
+    let (evaluator, pure) = any_evaluator(s);
+    let (prefix, effects) = any_prefix(s, group, pure);
+    let key = any_child(s);
+    s.assume(realisable(key));
+    let (result, model) = match arm {
+        0 => {
+            let result = evaluator.verif_prefix_has_side_effects(&prefix);
+            core::mem::forget(prefix);
+            (result, effects)
+        }
+        1 => {
+            let field = FieldExpression::new(prefix, "field");
+            let result = evaluator.verif_field_has_side_effects(&field);
+            core::mem::forget(field);
+            (result, effects || !pure)
+        }
+        2 => {
+            let index = IndexExpression::new(prefix, child_expression(2, key));
+            let result = evaluator.verif_index_has_side_effects(&index);
+            core::mem::forget(index);
+            (result, effects || key.effects || !pure)
+        }
+        _ => {
+            let instantiation = TypeInstantiationExpression::new(prefix, Vec::new());
+            let result = evaluator.verif_type_instantiation_has_side_effects(&instantiation);
+            core::mem::forget(instantiation);
+            (result, effects)
+        }
+    };
+    witness!(result, "reported with side effects");
+    witness!(!result, "reported free of side effects");
+    witness!(!result && pure, "free of side effects under the pure-metamethods assumption");
+    match arm {
+        0 => claim!(s, result || !model, "prefix: free of side effects only if no call is made and, unless metamethods are assumed pure, nothing is indexed"),
+        1 => claim!(s, result || !model, "field access: free of side effects only if metamethods are assumed pure and the prefix makes no call"),
+        2 => claim!(s, result || !model, "index access: free of side effects only if metamethods are assumed pure and neither prefix nor key makes a call"),
+        _ => claim!(s, result || !model, "type instantiation: free of side effects only if its prefix is"),
+    }
+}
+
+macro_rules! se_prefix_harness {
+    ($proof:ident, $body:ident, $group:expr, $arm:expr) => {
+        pub fn $body<S: Source>(s: &mut S) {
+            se_prefix(s, $group, $arm)
+        }
+        #[cfg(kani)]
+        #[kani::proof]
+        #[kani::unwind(4)]
+        #[kani::stub(darklua_core::process::Evaluator::evaluate, crate::lua::evaluate_stub)]
+        #[kani::stub(darklua_core::process::Evaluator::has_side_effects, crate::lua::has_side_effects_stub)]
+        fn $proof() {
+            $body(&mut crate::source::KaniSource);
+        }
+    };
+}
+se_prefix_harness!(c08_se_prefix_simple, se_prefix_simple, 0, 0);
+se_prefix_harness!(c08_se_prefix_nested, se_prefix_nested, 1, 0);
+se_prefix_harness!(c08_se_field, se_field, 1, 1);
+se_prefix_harness!(c08_se_index, se_index, 1, 2);
+se_prefix_harness!(c08_se_type_instantiation, se_type_instantiation, 1, 3);
+
+/// H-SE-table-entry and `maybe_metatable`.
+pub fn se_table_entry<S: Source>(s: &mut S) {
+    let (evaluator, _pure) = any_evaluator(s);
+    let kind = s.any_u8();
+    s.assume(kind < 3);
+    let key = any_child(s);
+    let value = any_child(s);
+    s.assume(realisable(key) && realisable(value));
+    let (entry, model): (TableEntry, bool) = match kind {
+        0 => (TableFieldEntry::new("field", child_expression(1, value)).into(), value.effects),
+        1 => (
+            TableIndexEntry::new(child_expression(0, key), child_expression(1, value)).into(),
+            key.effects || value.effects,
+        ),
+        _ => (TableEntry::from_value(child_expression(1, value)), value.effects),
+    };
+    let result = evaluator.verif_table_entry_has_side_effects(&entry);
+    witness!(result, "entry with side effects");
+    witness!(!result && kind == 1, "index entry free of side effects");
+    claim!(s, result || !model, "table entry: free of side effects only if neither its key nor its value makes a call");
+    core::mem::forget(entry);
+
+    let operand = any_operand(s);
+    let maybe = evaluator.verif_maybe_metatable(&answer(operand));
+    claim!(s, maybe || operand.known, "a value the evaluator does not know may carry a metatable");
+}
+#[cfg(kani)]
+#[kani::proof]
+#[kani::unwind(4)]
+#[kani::stub(darklua_core::process::Evaluator::evaluate, crate::lua::evaluate_stub)]
+#[kani::stub(darklua_core::process::Evaluator::has_side_effects, crate::lua::has_side_effects_stub)]
+fn c08_se_table_entry() {
+    se_table_entry(&mut crate::source::KaniSource);
+}
+
+/// H-MV: an expression said to yield a single value does (R-ARITY: only calls and `...` can
+/// yield zero or several values; parentheses, `and`/`or` and every other form yield exactly one).
+fn multiple_values<S: Source>(s: &mut S, group: u8) {
+    let kind = s.any_u8();
+    s.assume(kind < 7);
+    let op = s.any_u8();
+    s.assume(op < 16);
+    let (evaluator, _pure) = any_evaluator(s);
+    let call = || Expression::from(FunctionCall::from_name("f"));
+    let (expression, may_yield_many): (Expression, bool) = if group == 0 {
+        match kind {
+            0 => (call(), true),
+            1 => (Expression::variable_arguments(), true),
+            2 => (FunctionCall::from_name("f").with_method("m").into(), true),
+            3 => (ParentheseExpression::new(call()).into(), false),
+            4 => (BinaryExpression::new(binary_operator(op), call(), call()).into(), false),
+            5 => (UnaryExpression::new(UnaryOperator::Not, call()).into(), false),
+            _ => (Expression::identifier("x"), false),
+        }
+    } else {
+        match kind {
+            0 => (FieldExpression::new(Prefix::from_name("x"), "y").into(), false),
+            1 => (IndexExpression::new(Prefix::from_name("x"), call()).into(), false),
+            2 => (IfExpression::new(true, call(), call()).into(), false),
+            3 => (TableExpression::default().into(), false),
+            4 => (Expression::nil(), false),
+            5 => (Expression::from(true), false),
+            _ => (Expression::from(false), false),
+        }
+    };
+    let answer = evaluator.can_return_multiple_values(&expression);
+    witness!(group != 0 || answer, "some expression may yield several values");
+    witness!(group != 0 || (!answer && kind == 4), "and/or yields one value");
+    witness!(group != 1 || !answer, "a single-valued form is recognised");
+    if group == 0 && kind <= 2 {
+        claim!(s, answer || !may_yield_many, "a call or `...` is never said to yield a single value");
+    } else {
+        claim!(s, answer || !may_yield_many, "single-value verdicts are only given to single-valued forms");
+    }
+    core::mem::forget(expression);
+}
+pub fn multiple_values_calls<S: Source>(s: &mut S) {
+    multiple_values(s, 0)
+}
+pub fn multiple_values_others<S: Source>(s: &mut S) {
+    multiple_values(s, 1)
+}
+crate::proof!(#[kani::unwind(4)] c08_multiple_values_calls => multiple_values_calls);
+crate::proof!(#[kani::unwind(4)] c08_multiple_values_others => multiple_values_others);
